@@ -18,6 +18,36 @@ CLAIMED = {
             "Head key is not checked (the statement does not constrain it). Limits below the 1-byte minimum encoding are not generated.", "5 C13"),
 }
 
+CLAIMED.update({
+    "C01": ("exploration", TECH,
+            "Two real replicas (redb in-memory / SimDisk / file) are filled to reachable states and run one complete session through a serialise/deserialise hop, for both initiators, split_factor 2-8, max_set_size 1-8 and age-commit placements inside message processing; oracles: bounded message count, both sides equal join(A0 u B0) from RefDoc, mirrored sent/received counts, silent second session.",
+            "States have at most 24 entries per side; convergence for larger sets rests on the recursion being size independent.", "5 C01"),
+    "C03": ("exploration", TECH,
+            "An adversarial transport corrupts honest entries in flight (bit flips in every field and both signatures, swapped/transplanted/foreign signatures, foreign namespace, non-curve ids, empty/len mismatch, short identifiers, timestamps at bound-1/bound/bound+1 us with the replica's clock skewed accordingly) and delivers each alone and at a random position of a reconciliation message next to valid entries, through the real store actor with subscribers; nothing forged may be stored, acknowledged or announced, the rest of the message must be applied, indexes and heads must stay consistent.",
+            "Forgeries are mutations of honest entries; ed25519 itself is trusted.", "5 C03"),
+    "C05": ("exploration", TECH,
+            "Random queries (kind x author filter x key filter x sort x direction x include-empty x offset x limit, plus point lookups) against states reached through pruning histories (stale index rows), clean restarts and derived-index rebuilds, compared with a brute-force evaluator over the RefDoc model. The simulator contributes the states; the decisive dimension for the query itself is input generation, which the evidence says.",
+            "Latest-per-key with an author filter: documentation and code disagree on filter-before/after grouping and the statement is silent, so either reading is accepted for that one combination; ties in timestamp accept any tied entry.", "5 C05"),
+    "C07": ("exploration", TECH,
+            "Histories of read/write capability imports (right and other documents), local/remote/in-message writes, open/close, clean restarts, flush+crash restarts and removal over 2-4 documents against the RefStore model: local writes succeed iff the model capability is Write, remote entries are accepted regardless, the listed capability never downgrades and never changes for another document.",
+            "Store-level (Replica/Store API); the actor's in-memory copy of the capability is exercised by the actor scenario of C14.", "5 C07"),
+    "C08": ("exploration", TECH,
+            "The same two entry sets are reconciled over redb in-memory, SimDisk/file-backed redb and a harness-side BTreeMap backend that is driven by the crate's own reconciliation routine through a guarded adapter; postcard bytes of every message and the final sets must be identical; additionally get_first/get_range (all three shapes)/get_fingerprint/prefixes_of/remove_prefix_filtered are probed directly against the ordered-map definitions.",
+            "The entry fingerprint function is re-implemented in the harness (a change of it is a wire-compatibility break and is reported).", "5 C08"),
+    "C15": ("exploration", TECH,
+            "set/get_download_policy inside RefStore histories with clean restarts, flush+crash restarts, removal and re-creation: the policy read back equals the last one set, defaults otherwise, and is refused for a missing document; matching is compared with the brute-force definition (pure part, labelled).",
+            "Crash restarts are always preceded by a flush here (loss of unflushed data is C06's subject).", "5 C15"),
+    "C16": ("exploration", TECH,
+            "Histories over 2-4 documents with adjacent ids: writes, policies, peers, open/close, remove (open and closed), re-create, restarts. Removal must be refused while open, leave no observable residue (entries, both query paths, heads, peers, policy, capability), leave every other document byte-identical, and content_hashes must equal the hashes of all held entries at every observation.",
+            "Document ids are real public keys (crafted ids are not reachable through the public API for entries).", "5 C16"),
+    "C17": ("exploration", TECH,
+            "Registration sequences over 1-9 peers and 2-4 documents with restarts against an MRU-list model, with a strictly increasing simulated clock (decisive batch) and, as a separate batch, clock stalls and backward jumps between registrations.",
+            "none beyond the common ones", "5 C17"),
+    "C18": ("exploration", TECH,
+            "At a restart the disk image is opened with plain redb and the derived tables (by-key index, heads, or both) are deleted, as in a file written by an older version; after reopening through Store (migrations run) heads and key-ordered queries must answer as before; reopening an up-to-date image 1-4 times must change no observation.",
+            "Only the two populate-if-empty migrations are exercised (the namespaces-v1 and redb-v2 migrations have their own unit tests and no derived state).", "5 C18"),
+})
+
 NOT_YET = {}
 
 def main():
